@@ -97,6 +97,11 @@ def st_decos(draw, ids, kind, n_pre=(0, 3), n_post=(0, 2), n_snap=(0, 2), n_wrap
              "lam": lam_ok and draw(st.integers(0, 3)) == 0, "flavor": draw(st.sampled_from(list(flavors)))}
         d["err"] = draw(st_err(pn, list(err_forms)))
         items.append(d)
+    for d in items:
+        # one contract in eight comes from a contract factory (all of them share one source location)
+        if draw(st.integers(0, 7)) == 0 and d.get("enabled") is None:
+            d.update({"made": True, "args": [] if d["t"] == "require" else ["result"], "lam": False,
+                      "err": {"form": "default"}, "flavor": "sync"})
     for _ in range(nwr):
         items.append({"t": "wraps"})
     # application order = bottom to top; shuffle, then put each snapshot above (after) the first ensure
